@@ -81,8 +81,50 @@ def cmpSemver (v w : SemV) : Ordering :=
 def cmpNuGet (v w : SemV) : Ordering :=
   (compsCmp v.comps w.comps).then (cmpBuild (lowerStr v.build) (lowerStr w.build))
 
-def semverFam : Family := ⟨SemV, fun s => .ok (parseSemver 3 s), fun v w => .ord (cmpSemver v w)⟩
-def nugetFam : Family := ⟨SemV, fun s => .ok (parseSemver 4 s), fun v w => .ord (cmpNuGet v w)⟩
+/-! ### the same functions as the Go code writes them, with failing index / slice sites
+
+`parseSemver`, `cmpBuild`, `cmpSemver`, `cmpNuGet` above are the index-free reformulations the order
+proofs are about; the FAMILIES run the Go-shaped functions below (`none` = run-time panic), and
+`Proofs/Semantic/GoShape.lean` proves the two coincide. -/
+
+/-- `fetchComponentsAndBuild` as written: the guard `len(v.Components) <= maxComponents`, then
+`v.Components[:maxComponents]` and `v.Components[maxComponents:]` -/
+def parseSemverGo (maxC : Nat) (line : List Char) : Option SemV :=
+  let v := parseSemverLike line
+  if v.comps.length ≤ maxC then some v
+  else
+    (goSlice v.comps 0 maxC).bind fun comps =>
+    (goSlice v.comps maxC v.comps.length).bind fun extra =>
+      some ⟨comps, extra.foldl (fun b c => b ++ ['.'] ++ intToChars c) v.build⟩
+
+/-- `strings.TrimPrefix(_, "-")` -/
+def stripDash : List Char → List Char
+  | '-' :: r => r
+  | r => r
+
+/-- `removeBuildMetadata` as written: `strings.Split(str, "+")[0]` (version-semver.go:29) -/
+def buildCoreGo (s : List Char) : Option (List Char) := (goIndex (splitOn '+' s) 0).map stripDash
+
+/-- `compareBuildComponents` / `compareSemverBuildComponents` as written: `a[i]`, `b[i]` for
+`i < min(len(a), len(b))` (version-semver.go:75) -/
+def cmpBuildGo (a b : List Char) : Option Ordering :=
+  (buildCoreGo a).bind fun a => (buildCoreGo b).bind fun b =>
+    if a.isEmpty && !b.isEmpty then some .gt
+    else if !a.isEmpty && b.isEmpty then some .lt
+    else cmpLexGo identCmp (splitOn '.' a) (splitOn '.' b)
+
+/-- `components.Cmp` as written: `Fetch(i)` on both sides for `i < max(len, len)` -/
+def compsCmpGo (a b : List Int) : Option Ordering := cmpPadGo (fun x y => some (icmp x y)) 0 a b
+
+/-- `semverVersion.compare`: the build strings are looked at only when the components are equal -/
+def cmpSemverGo (v w : SemV) : Option Ordering :=
+  (compsCmpGo v.comps w.comps).bind fun d => thenGo d (cmpBuildGo v.build w.build)
+
+def cmpNuGetGo (v w : SemV) : Option Ordering :=
+  (compsCmpGo v.comps w.comps).bind fun d => thenGo d (cmpBuildGo (lowerStr v.build) (lowerStr w.build))
+
+def semverFam : Family := ⟨SemV, fun s => .ofGo (parseSemverGo 3 s), fun v w => .ofGo (cmpSemverGo v w)⟩
+def nugetFam : Family := ⟨SemV, fun s => .ofGo (parseSemverGo 4 s), fun v w => .ofGo (cmpNuGetGo v w)⟩
 
 /-! ## CRAN (`version-cran.go`, after the repair 22de9fca) -/
 
@@ -107,6 +149,10 @@ def parseCran (s : List Char) : PRes (List Int) :=
 def cmpCran (v w : List Int) : Ordering :=
   (compsCmp v w).then (ncmp v.length w.length)
 
-def cranFam : Family := ⟨List Int, parseCran, fun v w => .ord (cmpCran v w)⟩
+/-- `cranVersion.compare` as written (`components.Cmp` fetches behind its guard) -/
+def cmpCranGo (v w : List Int) : Option Ordering :=
+  (compsCmpGo v w).bind fun d => some (d.then (ncmp v.length w.length))
+
+def cranFam : Family := ⟨List Int, parseCran, fun v w => .ofGo (cmpCranGo v w)⟩
 
 end Scalibr.Semantic
